@@ -477,6 +477,11 @@ def run(ck, facts, tier):
     rule_gensym(ck, facts, lang)
     rule_rebuild(ck, facts, lang)
     rule_subst_order(ck, facts, lang)
+    rule_stage_tracker(ck, facts, lang)
+    # `f!(args)` must equal splicing `f(args)`: the desugaring passes visit every child (shared with C04)
+    from ..rules import belief, rewrite
+
+    rewrite.run(ck, facts, "C04.rewrite-complete", belief.rewriting_passes(), eliminated_variants=belief.eliminated_variant_names())
     from ..rules import exprwalk, flagprop
 
     flagprop.run(ck, facts, "C09.flag-propagation")
@@ -499,3 +504,43 @@ def run(ck, facts, tier):
     exprwalk.run(ck, facts, "C09.staging-predicate", only=lambda f: f.path in near or f.root in near)
     exprwalk.run_gating(ck, facts, "C09.staging-gating", only=lambda f: f.path in near or f.root in near)
     ck.not_decided("equality of the outputs of a staged program and its hand expansion; `f!(args)` = splice of `f(args)` as behaviour")
+
+
+def rule_stage_tracker(ck, facts, lang):
+    """a module pulled into the statement list is wrapped in `#stage(main)` … `#stage(<the stage we were in>)`"""
+    R = "C09.stage-tracker"
+    PS = "mimium_lang::ast::program::ProgramStatement"
+    ck.rule(R, "the function that flattens a program into statements wraps the contents of a `mod` / first-loaded `use` in a stage bracket and restores the surrounding stage from a local it keeps (the operand of the restoring DeclareStage is a clone of that local). That local is assigned in the arm that sees a `#stage(..)` declaration: otherwise a module inside a `#stage(macro)` section ends with `#stage(main)` and every macro defined after it lands at the wrong stage")
+    cands = []
+    for f in lang.fns:
+        if "::ast::program::" not in f.path or f.kind == "promoted" or "::test" in f.path:
+            continue
+        cov = cover.coverage(facts, f, PS)
+        if cov and cov.primary is not None and "StageDeclaration" in cov.primary_handled():
+            cands.append((f, cov))
+    ck.require(R, len(cands) >= 1, "anchor|flattener", "the statement flattener (a dispatch on ProgramStatement with a StageDeclaration arm) was not found")
+    n = 0
+    for f, cov in cands:
+        di = DefIndex(f)
+        trackers = set()
+        for b, st in f.all_stmts():
+            if st[KIND] == "a" and st[5][0] == "agg" and st[5][1][0] == "adt" and st[5][1][3] == "DeclareStage" and st[5][2]:
+                r = di.resolve(st[5][2][0])
+                if r[0] == "call" and (callee(r[1]) or "").split("::")[-1] == "clone" and r[1][5]:
+                    rr = di.resolve(r[1][5][0])
+                    if rr[0] == "rv" and rr[1][5][0] in ("ref", "raw") and not rr[1][5][1][1]:
+                        trackers.add(rr[1][5][1][0])
+        if not trackers:
+            continue
+        n += 1
+        tb = cov.arm_target("StageDeclaration")
+        region = set(reachable(f, tb, stop=[cov.primary.block]))
+        names = f.dbg_names()
+        for l in sorted(trackers):
+            assigned = any(st[KIND] == "a" and st[4] == [l, []] for b in region for st in f.stmts(b)) or any(t[6] is not None and t[6] == [l, []] for b, t in f.calls() if b in region)
+            key = "tracker|%s" % f.short.split("::")[-1]
+            if assigned:
+                ck.ok(R, key, {"tracker": names.get(l, "_%d" % l)})
+            else:
+                ck.bad(R, key, "%s restores the stage after a module from `%s`, but the arm for a `#stage(..)` declaration never assigns it: the restored stage is always the initial one, so `#stage(macro) … mod m { .. } fn quad(c){ .. }` puts quad at the main stage (`Variable quad is defined in stage 1 but accessed from stage 0`)" % (f.short, names.get(l, "_%d" % l)), f.where())
+    ck.floor(R, "stage_restoring_flatteners", n, 1)
